@@ -257,8 +257,9 @@ def _inject_raise(rng, body):
 
 def _exc_case(rng, cls):
     """user callables (events, model.step) that raise in the middle of run_until / run_for / run_next_event; the history goes on
-    afterwards.  Oracle only ("exc": true -> no model run): the exception propagates, the event is consumed, the clock stays at
-    its time, everything else is untouched, and the continuation obeys C14 / C15."""
+    afterwards (ARaise in the model: run through the correspondence like everything else).  The oracle: the exception
+    propagates, the event is consumed, the clock stays at its time, everything else is untouched, and the continuation obeys
+    C14 / C15."""
     c = _inside_case(rng, cls)
     g_ops = c["ops"]
     cands = [o for o in g_ops if o[0] == "sched"]
@@ -281,7 +282,7 @@ def _exc_case(rng, cls):
 def gen_cases(rng, tier):
     if tier == "thorough":
         _enable_heap_tie()
-    n = 700 if tier == "quick" else 30000
+    n = 500 if tier == "quick" else 30000
     cases = []
     for i in range(n):
         cls = "ABM" if rng.random() < 0.45 else "DEVS"
@@ -292,13 +293,13 @@ def gen_cases(rng, tier):
             cases.append(_peek_case(rng, cls))
         else:
             cases.append(_inside_case(rng, cls))
-    for _ in range(150 if tier == "quick" else 4000):
+    for _ in range(120 if tier == "quick" else 4000):
         cases.append(_life_case(rng, "ABM" if rng.random() < 0.5 else "DEVS"))
-    for _ in range(120 if tier == "quick" else 3000):
+    for _ in range(100 if tier == "quick" else 3000):
         cases.append(_exc_case(rng, "ABM" if rng.random() < 0.5 else "DEVS"))
     # non-dyadic float times: implementation + oracle only (run_impl answers "model": False for them)
-    cases += list(_float_pair_cases(20 if tier == "quick" else 40))
-    for _ in range(200 if tier == "quick" else 4000):
+    cases += list(_float_pair_cases(18 if tier == "quick" else 40))
+    for _ in range(150 if tier == "quick" else 4000):
         cases.append(_float_case(rng))
     return cases
 
